@@ -78,33 +78,50 @@ def judge(ob, compile_text):
     new_src = ob["new_src_text"].split("\n")
     indexed = ob["indexed"]
     # text of the moved note as the statement describes it
-    if ob["dst_same"]:
-        return True, "same page (statement does not cover moving a note onto its own page)"
-    new_dst = ob["new_dst_text"].split("\n")
-    base_dst = ob["dst_lines"] if ob["dst_lines"] is not None else TEMPLATE_TEXT.split("\n")
-    # (1) source: old lines minus exactly the note's lines
-    if new_src not in remove_block(ob["src_lines"], ob["note_lines"]):
-        return False, "source page is not the old page minus the note's lines"
-    # (2) destination: old lines with ONE contiguous block of len(note_lines) lines inserted, nothing removed
+    same = ob["dst_same"]
     k = len(ob["note_lines"])
-    cands = []
-    for i in range(0, len(new_dst) - k + 1):
-        rest = new_dst[:i] + new_dst[i + k:]
-        if rest in (base_dst, base_dst + [""], base_dst + ["", ""]):
-            cands.append(new_dst[i:i + k])
-    if not cands:
-        return False, "destination is not the old page plus one inserted block of %d lines" % k
-    if not ob["dst_valid"]:
-        return True, "destination was not a valid page: only the line-level clauses apply"
-    # (3) recompilation
-    page_s, e1 = compile_text("\n".join(new_src), "src.zo")
-    page_d, e2 = compile_text("\n".join(new_dst), "dst.zo")
-    if e1 or e2:
-        return False, "a page no longer parses: %r %r" % (e1[:1], e2[:1])
-    new_notes = list(page_s.notes) + list(page_d.notes)
-    moved = [n for n in page_d.notes if n.zid == Z1]
-    if len(moved) != 1 or any(n.zid == Z1 for n in page_s.notes):
-        return False, "moved note not exactly once in the destination / still in the source"
+    if same:
+        # destination = source page: the note's lines leave their place and ONE block of the same length is added
+        bases = remove_block(ob["src_lines"], ob["note_lines"])
+        ok = False
+        for i in range(0, len(new_src) - k + 1):
+            rest = new_src[:i] + new_src[i + k:]
+            if any(rest in (b, b + [""], b + ["", ""]) for b in bases):
+                ok = True
+        if not ok:
+            return False, "the page is not the old page minus the note's lines plus one inserted block of %d lines" % k
+        page_s, e1 = compile_text("\n".join(new_src), "src.zo")
+        if e1:
+            return False, "the page no longer parses: %r" % (e1[:1],)
+        new_notes = list(page_s.notes)
+        moved = [n for n in page_s.notes if n.zid == Z1]
+        if len(moved) != 1:
+            return False, "moved note %d times on its page" % len(moved)
+    else:
+        new_dst = ob["new_dst_text"].split("\n")
+        base_dst = ob["dst_lines"] if ob["dst_lines"] is not None else TEMPLATE_TEXT.split("\n")
+        # (1) source: old lines minus exactly the note's lines
+        if new_src not in remove_block(ob["src_lines"], ob["note_lines"]):
+            return False, "source page is not the old page minus the note's lines"
+        # (2) destination: old lines with ONE contiguous block of len(note_lines) lines inserted, nothing removed
+        cands = []
+        for i in range(0, len(new_dst) - k + 1):
+            rest = new_dst[:i] + new_dst[i + k:]
+            if rest in (base_dst, base_dst + [""], base_dst + ["", ""]):
+                cands.append(new_dst[i:i + k])
+        if not cands:
+            return False, "destination is not the old page plus one inserted block of %d lines" % k
+        if not ob["dst_valid"]:
+            return True, "destination was not a valid page: only the line-level clauses apply"
+        # (3) recompilation
+        page_s, e1 = compile_text("\n".join(new_src), "src.zo")
+        page_d, e2 = compile_text("\n".join(new_dst), "dst.zo")
+        if e1 or e2:
+            return False, "a page no longer parses: %r %r" % (e1[:1], e2[:1])
+        new_notes = list(page_s.notes) + list(page_d.notes)
+        moved = [n for n in page_d.notes if n.zid == Z1]
+        if len(moved) != 1 or any(n.zid == Z1 for n in page_s.notes):
+            return False, "moved note not exactly once in the destination / still in the source"
     moved = moved[0]
     others_old = sorted(note_key(n) for n in ob["old_notes"] if n.zid != Z1)
     others_new = sorted(note_key(n) for n in new_notes if n.zid != Z1)
